@@ -197,6 +197,7 @@ MUTANTS["C11"] = [
     ("cisco-removed-block-content-kept", "annet/rulebook/cisco/vlandb.py", "    for vlan_id in ((set(old_blocks.keys()) - set(new_blocks)) & stays):", "    for vlan_id in ((set(old_blocks.keys()) - set(new_blocks)) & set()):"),
     ("huawei-expand-to-exclusive", "annet/annlib/lib.py", "            expanded = expanded.union(range(left + 1, right))", "            expanded = expanded.union(range(left + 2, right))"),
     ("cisco-vlancfg-blanks-after-commas-not-normalised", "annet/rulebook/cisco/vlandb.py", 'words = re.sub(r",\\s+", ",", row).split()', 'words = row.split()\n    words = words[:-1] + [words[-1]]'),
+    ("cisco-chunks-all-start-at-zero", "annet/rulebook/cisco/vlandb.py", "        yield items[offset:offset + size]", "        yield items[offset:size]"),
 ]
 
 MUTANTS["C13"] = [
